@@ -1,4 +1,5 @@
 import IxpeVerif.Model.Gti
+import IxpeVerif.Lemmas.ImpTie
 /-!
 # C18 — GTI algebra, timeline-derived GTIs and binned exposures are exact (core Lean only)
 -/
@@ -203,5 +204,40 @@ theorem bin_gti_needs_sorted : binGti 0 10 [(5, 20), (1, 3)] = 5 ∧ sumOverlap 
 /-- non-vacuity: a bin straddling two GTIs and a gap -/
 example : GtiOk [(0, 300), (500, 900), (1000, 1400)] ∧ binGti 200 1200 [(0, 300), (500, 900), (1000, 1400)] = 700 := by
   refine ⟨by simp [GtiOk], by decide⟩
+
+/-! ### T-tie: the same statements about the definitions regenerated from the source (`Gen/Imp.lean`) -/
+
+/-- the loop of `xEventBinningLC._bin_gti`, translated with its `break`/`continue` structure, is the model -/
+theorem gen_bin_gti_eq_model (emin emax : Int) (starts stops : List Int) :
+    Gen.Imp.bin_gti emin emax starts stops = binGti emin emax (List.zip starts stops) := ImpTie.gen_bin_gti_eq_model emin emax starts stops
+
+/-- **exposure of a light-curve bin, on the current source**: for sorted disjoint GTIs the loop returns the total overlap of the bin with the GTIs -/
+theorem gen_bin_gti_eq_overlap (emin emax : Int) (hbin : emin < emax) (starts stops : List Int) (hok : GtiOk (List.zip starts stops)) :
+    Gen.Imp.bin_gti emin emax starts stops = sumOverlap emin emax (List.zip starts stops) := by
+  rw [gen_bin_gti_eq_model, binGti_eq emin emax hbin _ hok]
+
+theorem gen_filter_event_times_eq_model (gtis : List Ivl) (ts : List Int) :
+    Gen.Imp.filter_event_times gtis ts = filterTimes gtis ts := ImpTie.gen_filter_event_times_eq_model gtis ts
+
+/-- **filtering by a GTI list keeps exactly the times inside some interval, on the current source** -/
+theorem gen_filter_exact (gtis : List Ivl) (ts : List Int) (t : Int) :
+    t ∈ (Gen.Imp.filter_event_times gtis ts).1 ↔ t ∈ ts ∧ ∃ g ∈ gtis, g.1 ≤ t ∧ t ≤ g.2 := by
+  rw [gen_filter_event_times_eq_model]; exact filter_exact gtis ts t
+
+theorem gen_filter_sublist (gtis : List Ivl) (ts : List Int) : ((Gen.Imp.filter_event_times gtis ts).1).Sublist ts := by
+  rw [gen_filter_event_times_eq_model]; exact filter_sublist gtis ts
+
+theorem gen_complement_eq_model (l : List Ivl) : Gen.Imp.gti_complement l = complement l := ImpTie.gen_complement_eq_model l
+
+theorem gen_total_good_time_eq_model (l : List Ivl) : Gen.Imp.total_good_time l = total l := ImpTie.gen_total_good_time_eq_model l
+
+/-- **the list and its complement tile the span, on the current source** (`total_good_time`, `complement`, `all_mets` as generated) -/
+theorem gen_complement_tiles (l : List Ivl) (s e : Int) (h : l.head? = some (s, e)) (last : Ivl) (hl : l.getLast? = some last) :
+    Gen.Imp.total_good_time l + Gen.Imp.total_good_time (Gen.Imp.gti_complement l) = last.2 - s := by
+  rw [gen_complement_eq_model, gen_total_good_time_eq_model, gen_total_good_time_eq_model]
+  exact complement_tiles l s e h last hl
+
+example : Gen.Imp.bin_gti 0 10 [1, 5, 12] [3, 11, 20] = 7 ∧ Gen.Imp.gti_complement [(0, 3), (5, 8), (9, 12)] = [(3, 5), (8, 9)] ∧
+    Gen.Imp.filter_event_times [(0, 3), (5, 8)] [1, 4, 5, 9] = ([1, 5], [true, false, true, false]) := by decide
 
 end Gti
